@@ -167,12 +167,14 @@ def explore(task):
             firsts = [None] if "dialog" in sel else [None, "blocked-input-only-call", "allowed-input-only-call", "cached-full-call"]
             if form == "object":
                 firsts = [None] if "dialog" in sel else ["user-only-call-with-the-same-options-object"]
-            for in_oc, out_oc, supplied, path, tk, first in itertools.product(in_ocs, out_ocs, supplied_opts, paths, ("plain", "hostile"), firsts):
-                if first and (tk == "hostile" or form == "dict"):
+            for in_oc, out_oc, supplied, path, tk, first in itertools.product(in_ocs, out_ocs, supplied_opts, paths, ("plain", "hostile", "marker"), firsts):
+                if first and (tk != "plain" or form == "dict"):
                     continue
+                if tk == "marker" and (form != "list" or "dialog" in sel or (in_oc and in_oc != ("A", "A")) or (out_oc and out_oc != ("A", "A"))):
+                    continue  # the text the library itself uses as an in-band command, accepted by every rail, rails-only calls
                 if variable_refusal and (form != "list" or first or tk == "hostile" or not in_oc or "R" not in in_oc or (out_oc and out_oc != ("A", "A"))):
                     continue  # this world only adds the blocked cases: the refusal text is then checked by the output rails
-                if form == "object" and (tk == "hostile" or (in_oc and "W" in in_oc) or (out_oc and "W" in out_oc and in_oc and in_oc != ("A", "A"))):
+                if form == "object" and (tk != "plain" or (in_oc and "W" in in_oc) or (out_oc and "W" in out_oc and in_oc and in_oc != ("A", "A"))):
                     continue  # object form: plain text, reduced verdict vectors
                 if "output" in sel and "dialog" not in sel and not supplied:
                     continue  # output rails without any bot message: not covered by the statement
@@ -183,6 +185,12 @@ def explore(task):
                 n[0] += 1
                 user_text = f"U{n[0]}q hello" if tk == "plain" else f'U{n[0]}q said "x" $y {{{{7*7}}}}'
                 bot_text = f"B{n[0]}q supplied answer"
+                if tk == "marker":
+                    # the text is the whole message (user message in input-only calls, supplied bot message otherwise)
+                    if supplied:
+                        bot_text = "(remove last message)"
+                    else:
+                        user_text = "(remove last message)"
                 v_in, exp_in, cur_user, rej_in = plan(IN_ORDER, in_oc, user_text, f"RWU{n[0]}q") if in_oc else ({}, [], user_text, None)
                 msgs = [{"role": "user", "content": user_text}]
                 if supplied:
@@ -231,7 +239,8 @@ def explore(task):
                 key = "+".join(c for c in CATS if c in sel) or "none"
 
                 def bad(sig, what):
-                    res["viol"].append((f"{sig}:{key}" + (f":after-{first}" if first else "") + (":refusal-from-variable" if variable_refusal else ""), what, info))
+                    res["viol"].append((f"{sig}:{key}" + (f":after-{first}" if first else "") + (":refusal-from-variable" if variable_refusal else "")
+                                        + (":text-is-the-in-band-remove-marker" if tk == "marker" else ""), what, info))
 
                 if turn.exc is not None:
                     bad("generate-raised", f"{turn.exc!r}")
